@@ -11,6 +11,7 @@ HmE(n, t) == S!HmE(n, t)  Hm(n, t) == S!Hm(n, t)  If(fl, t) == S!If(fl, t)  IfBi
 BinTree(t) == S!BinTree(t)  HmS(n, t) == S!HmS(n, t)
 Lite(t) == S!Lite(t)  HmAug(n, t, x) == S!HmAug(n, t, x)  HmAugE(n, t, x) == S!HmAugE(n, t, x)  RefAny == S!RefAny
 RefPick(fl, t0, t1) == S!RefPick(fl, t0, t1)  F(name, t) == S!F(name, t)  Alt(cn, tag, fs) == S!Alt(cn, tag, fs)
+AltC(cn, tag, fs, cons) == S!AltC(cn, tag, fs, cons)
 Tag32(a, b, c, d) == S!BytesToBits(<<a, b, c, d>>)
 Tag8(a) == S!BytesToBits(<<a>>)
 
@@ -190,6 +191,35 @@ TheSchema == [
         F("key_block", Bool), F("shard_hashes", HmE(32, Ref(BinTree(Lite(Named("ShardDescr")))))),
         F("shard_fees", Maybe(RefCell)), F("shard_fees_extra", Named("ShardFeeCreated")),
         F("r1", Ref(Named("McBlockExtraR"))), F("config", If("key_block", Named("ConfigParams"))) >>) >>,
+  \* ---- configuration parameter values (config.py)
+  ConfigProposalSetup |-> << Alt("cfg_vote_cfg", Tag8(54), << F("min_tot_rounds", U(8)), F("max_tot_rounds", U(8)), F("min_wins", U(8)), F("max_losses", U(8)),
+        F("min_store_sec", U(32)), F("max_store_sec", U(32)), F("bit_price", U(32)), F("cell_price", U(32)) >>) >>,
+  ConfigVotingSetup |-> << Alt("cfg_vote_setup", Tag8(145), << F("normal_params", Ref(Named("ConfigProposalSetup"))), F("critical_params", Ref(Named("ConfigProposalSetup"))) >>) >>,
+  ComplaintPricing |-> << Alt("complaint_prices", Tag8(26), << F("deposit", Grams), F("bit_price", Grams), F("cell_price", Grams) >>) >>,
+  BlockCreateFees |-> << Alt("block_grams_created", Tag8(107), << F("masterchain_block_fee", Grams), F("basechain_block_fee", Grams) >>) >>,
+  StoragePrices |-> << Alt("storage_prices", Tag8(204), << F("utime_since", U(32)), F("bit_price_ps", U(64)), F("cell_price_ps", U(64)),
+        F("mc_bit_price_ps", U(64)), F("mc_cell_price_ps", U(64)) >>) >>,
+  GasLimitsPrices |-> << Alt("gas_prices", Tag8(221), << F("gas_price", U(64)), F("gas_limit", U(64)), F("gas_credit", U(64)), F("block_gas_limit", U(64)),
+                                                      F("freeze_due_limit", U(64)), F("delete_due_limit", U(64)) >>),
+                         Alt("gas_prices_ext", Tag8(222), << F("gas_price", U(64)), F("gas_limit", U(64)), F("special_gas_limit", U(64)), F("gas_credit", U(64)),
+                                                          F("block_gas_limit", U(64)), F("freeze_due_limit", U(64)), F("delete_due_limit", U(64)) >>),
+                         Alt("gas_flat_pfx", Tag8(209), << F("flat_gas_limit", U(64)), F("flat_gas_price", U(64)), F("other", Lite(Named("GasLimitsPrices"))) >>) >>,
+  \* param_limits#c3 underload:# soft_limit:# { underload <= soft_limit } hard_limit:# { soft_limit <= hard_limit } = ParamLimits;
+  ParamLimits |-> << AltC("param_limits", Tag8(195), << F("underload", U(32)), F("soft_limit", U(32)), F("hard_limit", U(32)) >>,
+                          << <<"underload", "soft_limit">>, <<"soft_limit", "hard_limit">> >>) >>,
+  BlockLimits |-> << Alt("block_limits", Tag8(93), << F("bytes", Named("ParamLimits")), F("gas", Named("ParamLimits")), F("lt_delta", Named("ParamLimits")) >>) >>,
+  MsgForwardPrices |-> << Alt("msg_forward_prices", Tag8(234), << F("lump_price", U(64)), F("bit_price", U(64)), F("cell_price", U(64)),
+        F("ihr_price_factor", U(32)), F("first_frac", U(16)), F("next_frac", U(16)) >>) >>,
+  \* ---- output actions
+  \* libref_hash$0 lib_hash:bits256 = LibRef;  libref_ref$1 library:^Cell = LibRef;
+  LibRef |-> << Alt("libref_hash", <<0>>, << F("lib_hash", Bits(256)) >>), Alt("libref_ref", <<1>>, << F("library", RefCell) >>) >>,
+  \* action_send_msg#0ec3c86d mode:(## 8) out_msg:^(MessageRelaxed Any);  action_set_code#ad4de08e new_code:^Cell;
+  \* action_reserve_currency#36e6b809 mode:(## 8) currency:CurrencyCollection;  action_change_library#26fa1dd4 mode:(## 7) libref:LibRef
+  \* (out_msg is generated as a Message: every Message is a MessageRelaxed)
+  OutAction |-> << Alt("action_send_msg", Tag32(14, 195, 200, 109), << F("mode", U(8)), F("out_msg", Ref(Lite(Named("Message")))) >>),
+                   Alt("action_set_code", Tag32(173, 77, 224, 142), << F("new_code", RefCell) >>),
+                   Alt("action_reserve_currency", Tag32(54, 230, 184, 9), << F("mode", U(8)), F("currency", CC) >>),
+                   Alt("action_change_library", Tag32(38, 250, 29, 212), << F("mode", U(7)), F("libref", Named("LibRef")) >>) >>,
   \* ---- shard state
   \* shard_state#9023afe2 global_id:int32 shard_id:ShardIdent seq_no:uint32 vert_seq_no:# gen_utime:uint32 gen_lt:uint64 min_ref_mc_seqno:uint32
   \*   out_msg_queue_info:^OutMsgQueueInfo before_split:(## 1) accounts:^ShardAccounts ^[ overload_history:uint64 underload_history:uint64
